@@ -108,6 +108,11 @@ Vals ==
     two |-> <<[t |-> "str", v |-> "s1"], [t |-> "int", v |-> "7"]>>,
     twoqn |-> <<Ref(NameQN("ex", A, Y)), [t |-> "str", v |-> "s2"]>>,
     subtype |-> <<Ref(NameQN("prov", ProvNS, <<"Person">>))>>,
+    \* a prov:type naming the record's OWN base class, per kind
+    tyEntity |-> <<Ref(NameQN("prov", ProvNS, <<"Entity">>))>>, tyAgent |-> <<Ref(NameQN("prov", ProvNS, <<"Agent">>))>>,
+    tyDerivation |-> <<Ref(NameQN("prov", ProvNS, <<"Derivation">>))>>,
+    \* two values of one attribute with the same text and different kinds
+    sametext |-> <<[t |-> "int", v |-> "1"], [t |-> "str", v |-> "n1"]>>,
     none |-> <<>> ]
 ValueClasses == DOMAIN Vals
 ExtraSet ==
@@ -115,6 +120,8 @@ ExtraSet ==
     [] ExtraPreset = "values" -> {<<"other", v>> : v \in ValueClasses}
     [] ExtraPreset = "attrs"  -> {<<a, v>> : a \in DOMAIN AttrNames \ {"timeish", "foreignref", "foreigntime"}, v \in {"str", "qn", "int", "subtype"}}
                                  \cup {<<"foreignref", "qn">>, <<"foreignref", "qnew">>, <<"foreigntime", "dt">>}
+                                 \cup {<<"type", "tyEntity">>, <<"type", "tyAgent">>, <<"type", "tyDerivation">>,
+                                       <<"other", "sametext">>, <<"type", "sametext">>}
                                  \cup {<<"timeish", "dt">>, <<"value", "dt">>, <<"location", "dt">>, <<"type", "twosub">>,
                                        <<"type", "twosubE">>, <<"type", "typetwo">>, <<"type", "uri">>, <<"location", "lang">>}
     [] ExtraPreset = "all"    -> {<<a, v>> : a \in DOMAIN AttrNames \ {"timeish", "foreignref", "foreigntime"}, v \in ValueClasses}
